@@ -53,12 +53,20 @@ def constraints(rng, unsupported=False):
     return '{' + ', '.join(constraint(rng, unsupported) for _ in range(n)) + '}'
 
 
-def fragment(rng, natoms=None, unsupported=False, collide=False):
+LABELS2 = ['p1', 'Q', 'r_2', 'zz9', 'A7', 'lbl', 'u', 'v8', 'k', 'mm', 'X1', 'yy', 'd4', 'e', 'f0', 'g_']
+
+
+def fragment(rng, natoms=None, unsupported=False, collide=False, lrng=None, labels=None):
+    """structure from `rng`; layout from `lrng` and label names from `labels`
+    (so the same structure can be rendered with another layout and labels)"""
+    lrng = lrng or rng
     natoms = natoms or rng.choice([1, 1, 2, 2, 3, 3, 4, 5, 6, 8])
-    labels = rng.sample(LABELS, natoms)
+    pick = rng.sample(range(len(LABELS)), natoms)
+    pool = labels or LABELS
+    labels = [pool[i] for i in pick]
     if collide and natoms > 1 and rng.random() < 0.5:
         labels[-1] = labels[0]
-    w = lambda must=True: ws(rng, must)
+    w = lambda must=True: ws(lrng, must)
     parts = ['%s labeled %s%s%s' % (atomtype(rng, True), labels[0], w(False), constraints(rng, unsupported))]
     bonds = []
     for i in range(1, natoms):
@@ -74,7 +82,7 @@ def fragment(rng, natoms=None, unsupported=False, collide=False):
     if natoms >= 4 and rng.random() < 0.2:
         parts.append('stereo double bond %s %s%s to %s for double bond between %s and %s' % (
             labels[0], '! ' if rng.random() < 0.3 else '', rng.choice(['cis', 'trans', 'notspecified']), labels[3], labels[1], labels[2]))
-    body = w().join(parts) if rng.random() < 0.5 else '\n'.join(parts)
+    body = w().join(parts) if lrng.random() < 0.5 else '\n'.join(parts)
     name = rng.choice(['a', 'frag1', 'C3chain', 'x_y', 'F'])
     return '%sfragment%s%s%s{%s%s%s}%s' % (rng.choice(MOLPREFIX), w(), name, w(False), w(False), body, w(False), w(False))
 
